@@ -1000,7 +1000,7 @@ func runC12(r *Run, rng *Rng, tier string) error {
 			if strings.HasPrefix(m, "directed:") {
 				w := strings.Fields(m)
 				key := w[0]
-				if len(w) > 1 && w[0] != "directed:openapi-layers" && w[0] != "directed:emptyfile" {
+				if len(w) > 1 && w[0] != "directed:openapi-layers" && w[0] != "directed:emptyfile" && w[0] != "directed:crdcycle" {
 					key += " " + strings.SplitN(w[1], "=", 2)[0]
 				} else if len(w) > 1 && w[0] == "directed:emptyfile" {
 					key += " " + w[1]
